@@ -6,7 +6,7 @@ lies on any path between that edge and the unsafe call.  Sites justified only by
 argument are *assumed* (reported in evidence, not discharged).  A site that is neither is a
 violation: new unsafe code must come with a guard this engine can see, or a named exception."""
 from rules.core import (path_conditions, op_expr, place_expr, show, strip_casts, expr_calls, callee_name, last_seg,
-                        pol_is_variant, fold, strip_generics, AnchorMissing)
+                        pol_is_variant, fold, strip_generics, AnchorMissing, rvalue_expr)
 
 # ------------------------------------------------------------------------------------------
 # roots
@@ -319,12 +319,28 @@ def assigns_local(f, bb, l):
 def is_get_some(e, pol, idx_expr):
     """atom says `slice.get(idx_expr)` returned Some (directly or through `?`)"""
     e = strip_casts(e)
+    if e[0] == "call" and last_seg(e[1]) == "map_or" and len(e[2]) == 3 and pol is True and strip_casts(e[2][1]) == ("k", False):
+        # `slice.get(i).map_or(false, pred)` is true: the element exists
+        g = strip_casts(e[2][0])
+        return g[0] == "call" and g[1].endswith("::get") and len(g[2]) == 2 and _same_index(strip_casts(g[2][1]), idx_expr)
     if e[0] != "discr":
         return False
     inner, tried = unwrap_try(strip_casts(e[1]))
     if inner[0] == "call" and inner[1].endswith("::get") and len(inner[2]) == 2 and pol_is_variant(pol, 0 if tried else 1):
-        return strip_casts(inner[2][1]) == idx_expr
+        return _same_index(strip_casts(inner[2][1]), idx_expr)
     return False
+
+
+def _same_index(a, b):
+    """Equal index expressions, reading `i.wrapping_add(1)` as `i + 1`."""
+    def n(x):
+        x = strip_casts(x)
+        if x[0] == "call" and last_seg(x[1]) == "wrapping_add" and len(x[2]) == 2:
+            return ("bin", "Add", n(x[2][0]), n(x[2][1]))
+        if x[0] == "bin":
+            return ("bin", x[1], n(x[2]), n(x[3]))
+        return x
+    return n(a) == n(b)
 
 
 def is_lt_len(e, pol, idx_expr):
@@ -397,9 +413,22 @@ def rule_set_cursor(col, facts):
             if f.unsafe and e[0] == "arg":
                 col.ok(R, key, "unsafe fn forwards its own index parameter", loc)
                 continue
+            if e[0] == "call" and last_seg(e[1]) in ("wrapping_add", "saturating_add") and len(e[2]) == 2 and strip_casts(e[2][1]) == ("k", 1):
+                e = ("bin", "Add", e[2][0], e[2][1])              # `i.wrapping_add(1)`: i + 1 under the same `get(i)` = Some
             if e[0] == "bin" and e[1] == "Add" and strip_casts(e[3]) == ("k", 1):
                 base_e = strip_casts(e[2])
                 ok = any(is_get_some(x, pol, base_e) for _d, x, pol in conds)
+                if not ok and base_e[0] == "var" and len([1 for _b, _j, _rv, pr in f.defs().get(base_e[1], []) if not pr]) >= 2:
+                    # a loop variable: `index` stays the position of an existing element if every assignment gives it
+                    # a value v for which `buffer.get(v)` was found Some at that point (`let mut index = cursor;
+                    # while slc.get(index + 1).map_or(false, is_sep) { index += 1 }`)
+                    ok = True
+                    for bd, _j, rv, pr in f.defs().get(base_e[1], []):
+                        if pr:
+                            continue
+                        v = strip_casts(rvalue_expr(f, rv, 0))
+                        if not any(is_get_some(x, pol, v) for _d, x, pol in path_conditions(f, bd)):
+                            ok = False
                 col.check(R, key, ok, "set_cursor(%s) without a dominating `buffer.get(%s)` = Some" % (show(e), show(base_e)), loc)
                 continue
             if e[0] == "var":
